@@ -173,6 +173,7 @@ func (h *H) progCases() {
 			body, _ := jpegProgScript(dim, dim, 1, ri, script)
 			c := h.one("DCTDecode", parm{Kind: "null"}, body, fmt.Sprintf("progressive jpeg, %d scans: %s", n, name))
 			c.Own = true
+			c.Work = admittedJPEG(dim, dim, 1)
 			h.chainCase(c)
 		}
 	}
@@ -185,12 +186,14 @@ func (h *H) progCases() {
 		body, _ := jpegProgScript(1600, 1600, 3, 0, script)
 		c := h.one("DCTDecode", parm{Kind: "null"}, body, "progressive jpeg, refinement scans over three components")
 		c.Own = true
+		c.Work = admittedJPEG(1600, 1600, 3)
 		h.chainCase(c)
 	}
 	// JBIG2: more pixel work than workLimit(rawLen) allows must be refused, not done
 	if !h.aborted && e.Thorough {
 		c := h.one("JBIG2Decode", parm{Kind: "null"}, jbig2ManyRegions(200, 1, 1<<20, 38, 8, 8), "jbig2: 200 Mi pixels of region work for 6 KB")
 		c.Live = true // one bitmap per region is allocated and freed: judge what is held, not the cumulative total
+		c.Work = admittedJBIG2(int64(len(c.Body())), 200<<20)
 		o, ok := h.triple(c, false)
 		if ok && o.Class == "ok" {
 			h.fail("work-over-limit", "200 Mi pixel operations were carried out for a JBIG2 input of a few kilobytes", c, o)
